@@ -79,11 +79,15 @@ def k6_bits_after_bits(spec):
     registers is not increasing along the wires (bits measured out of wire
     order): `prepare_bits` then renames registers of wires to the left of the
     new bit. The list is simulated as the exporter keeps it. """
+    if spec["dom"]:   # the exporter first prepares the inputs, left to right
+        spec = init_and_discard_spec(spec)
     scans = specs.scans(spec)
     bits, n_bits = [], 0
     for (b, off), scan in zip(spec["layers"], scans):
         g = b.get("g")
         left = sum(1 for w in scan[:off] if w[0] == "bit")
+        if left > len(bits):
+            raise core.HarnessError("register simulation out of step")
         if g == "Bits" and not b.get("dag"):
             k = len(b["a"])
             if any(w[0] == "bit" for w in scan[off:]):
@@ -103,14 +107,7 @@ def k6_bits_after_bits(spec):
             for j in range(k):
                 bits = bits[:left + j] + [n_bits] + bits[left + j:]
                 n_bits += 1
-        elif g == "Bits" or g == "Discard" and "bit" in b["a"]:
-            n = len(specs.bdom(b))
-            bits = bits[:left] + bits[left + n:]
-        elif g in CLASSICAL:
-            n_in, n_out = len(specs.bdom(b)), len(specs.bcod(b))
-            bits = bits[:left] + [None] * n_out + bits[left + n_in:]
-            bits = [x for x in bits]
-        if any(x is None for x in bits):
+        elif is_classical_pp(b):
             return False   # classical post-processing: the other finding
     return False
 
